@@ -9,6 +9,8 @@ def text_edit(old, new):
     return edit
 O_ = 'src/pharmpy/model/external/nonmem/records/omega_record.py'
 MUTANTS = [
+    Mutant('if_skipped_demorgan', C, text_edit("logic = sympy.And(logic, *(sympy.Not(cond) for cond in skipped))", "logic = sympy.And(logic, sympy.Not(sympy.And(*skipped)))"), 'A8', 'NOT(AND) instead of AND(NOT)'),
+    Mutant('thetas_fix_per_record', 'src/pharmpy/model/external/nonmem/parsing.py', text_edit("        fixs.extend(theta_record.fixs)\n        names.extend(theta_record.comment_names)\n    fixs = _fix_thetas_with_same_bounds(bounds, inits, fixs)", "        fixs.extend(_fix_thetas_with_same_bounds(bounds, inits, theta_record.fixs))\n        names.extend(theta_record.comment_names)"), 'A10', 'accumulated and per-record lists zipped'),
     Mutant('omega_single_form', O_, text_edit("                                    if sd:\n                                        A[i, j] = A[i, i] * A[j, j] * A[i, j]\n                                    else:\n                                        A[i, j] = math.sqrt(A[i, i]) * math.sqrt(A[j, j]) * A[i, j]", "                                    A[i, j] = math.sqrt(A[i, i]) * math.sqrt(A[j, j]) * A[i, j]"), 'A7', 'SD case dropped'),
     Mutant('flink_wrong_scale', A, text_edit("                    expr = func / Expr.symbol(s)", "                    expr = func / Expr.symbol(scaling)"), 'A9', 'guard and use disagree'),
     Mutant('des_snapshot_hoisted', 'src/pharmpy/model/statements.py', text_edit("            for term in terms:\n                assert isinstance(term, sympy.Expr)\n                from_comp = None", "            cs = CompartmentalSystem(cb)\n            for term in terms:\n                assert isinstance(term, sympy.Expr)\n                from_comp = None").__call__ and (lambda src: (lambda a: a.replace("                    cs = CompartmentalSystem(cb)\n                    current_flow", "                    current_flow", 1) if a else None)(text_edit("            for term in terms:\n                assert isinstance(term, sympy.Expr)\n                from_comp = None", "            cs = CompartmentalSystem(cb)\n            for term in terms:\n                assert isinstance(term, sympy.Expr)\n                from_comp = None")(src))), 'A6', 'snapshot taken once per compartment'),
